@@ -129,6 +129,9 @@ func verifRun(op *verifOp) (res *verifOut) {
 	case "resolvers":
 		verifResolvers(op, res)
 	case "encode":
+		if op.SignalMs > 0 {
+			defer verifInterruptSelf(time.Duration(op.SignalMs) * time.Millisecond)()
+		}
 		res.Err = verifErr(encode(op.Files, op.To, op.Output))
 	case "report":
 		if op.SignalMs > 0 {
@@ -136,6 +139,9 @@ func verifRun(op *verifOp) (res *verifOut) {
 		}
 		res.Err = verifErr(report(op.Files, op.Type, op.Output, time.Duration(op.Every), op.Buckets))
 	case "plot":
+		if op.SignalMs > 0 {
+			defer verifInterruptSelf(time.Duration(op.SignalMs) * time.Millisecond)()
+		}
 		res.Err = verifErr(plotRun(op.Files, op.Threshold, op.Title, op.Output))
 	case "attack":
 		res.Err = verifErr(attackCmd().fn(op.Args))
